@@ -679,6 +679,48 @@ Check C06_cli_text_out_in_exact : forall pfs pbody emit nameof v name,
   /\ equals (vsort v) v = true /\ same_data (vsort v) v = true.
 Print Assumptions C06_cli_text_out_in_exact.
 
+(* sentence one at the level of the bytes: what a run writes for a data value, a second run
+   `output <name> = inputs.<name>` reading those bytes writes again, byte for byte *)
+Theorem C06_cli_text_out_echo_fixed_point : forall pfs pbody emit nameof fmt_pieces float_of_tok okf,
+  (forall x, okf x = true -> tok_wf (fmt_pieces x) = true /\ tok_is_float (fmt_pieces x) = true) ->
+  (forall x, okf x = true -> float_of_tok (fmt_pieces x) = Some x) ->
+  (forall x, okf x = true -> is_finite x = true) ->
+  (forall t x, float_of_tok t = Some x -> okf x = true) ->
+  (forall z, I64_MIN <= z <= U64_MAX -> okf (num_of_Z z) = true) ->
+  forall v name,
+  json_data v = true -> value_no_reserved pfs v = true ->
+  json_all (okn_of okf) (to_json (sv_of v)) = true ->
+  (jdepth (write_outputs [(name, sv_of v)]) <= 127)%nat ->
+  let out := jprint fmt_pieces (write_outputs [(name, sv_of v)]) in
+  cli_text_echo pfs pbody emit nameof fmt_pieces float_of_tok out name name = Ok out.
+Proof. exact cli_text_out_echo_fixed_point. Qed.
+Check C06_cli_text_out_echo_fixed_point : forall pfs pbody emit nameof fmt_pieces float_of_tok okf,
+  (forall x, okf x = true -> tok_wf (fmt_pieces x) = true /\ tok_is_float (fmt_pieces x) = true) ->
+  (forall x, okf x = true -> float_of_tok (fmt_pieces x) = Some x) ->
+  (forall x, okf x = true -> is_finite x = true) ->
+  (forall t x, float_of_tok t = Some x -> okf x = true) ->
+  (forall z, I64_MIN <= z <= U64_MAX -> okf (num_of_Z z) = true) ->
+  forall v name,
+  json_data v = true -> value_no_reserved pfs v = true ->
+  json_all (okn_of okf) (to_json (sv_of v)) = true ->
+  (jdepth (write_outputs [(name, sv_of v)]) <= 127)%nat ->
+  let out := jprint fmt_pieces (write_outputs [(name, sv_of v)]) in
+  cli_text_echo pfs pbody emit nameof fmt_pieces float_of_tok out name name = Ok out.
+Print Assumptions C06_cli_text_out_echo_fixed_point.
+
+Theorem C06_cli_text_out_echo_fixed_point_exact : forall pfs pbody emit nameof v name,
+  json_data v = true -> value_doubles v = true -> value_no_reserved pfs v = true ->
+  (jdepth (write_outputs [(name, sv_of v)]) <= 127)%nat ->
+  let out := jprint exact_pieces (write_outputs [(name, sv_of v)]) in
+  cli_text_echo pfs pbody emit nameof exact_pieces rn_float_of_tok out name name = Ok out.
+Proof. exact cli_text_out_echo_fixed_point_exact. Qed.
+Check C06_cli_text_out_echo_fixed_point_exact : forall pfs pbody emit nameof v name,
+  json_data v = true -> value_doubles v = true -> value_no_reserved pfs v = true ->
+  (jdepth (write_outputs [(name, sv_of v)]) <= 127)%nat ->
+  let out := jprint exact_pieces (write_outputs [(name, sv_of v)]) in
+  cli_text_echo pfs pbody emit nameof exact_pieces rn_float_of_tok out name name = Ok out.
+Print Assumptions C06_cli_text_out_echo_fixed_point_exact.
+
 (* ---- non-vacuity of the new statements ---- *)
 Open Scope string_scope.
 Example ex_exact_texts :
